@@ -49,6 +49,18 @@ pub struct Case {
     pub adapters: AdapterScript,
     pub items: Vec<Item>,
     pub select_seed: u64,
+    /// slow routing: discovery takes this long, and from the n-th clientbound write on every write stays pending
+    /// for a while (a client that does not drain its socket); after Client Information only the global ordering
+    /// rules are judged (the terminal packet is the last one)
+    #[serde(default)]
+    pub slow: Option<Slow>,
+}
+
+#[derive(Clone, Debug, Serialize, Deserialize, PartialEq)]
+pub struct Slow {
+    pub discovery_ms: u32,
+    pub pending_from: u8,
+    pub pending_ms: u16,
 }
 
 pub struct C06;
@@ -155,10 +167,17 @@ fn run_case(case: &Case) -> (sim::SimOutcome, Vec<Step>, bool, u64, u64) {
     let sh2 = Arc::clone(&shared);
     let case2 = case.clone();
     let now0 = cookie::now_secs();
+    let mut adapters = case.adapters.clone();
+    let mut transport = TransportScript::default();
+    if let Some(slow) = &case.slow {
+        adapters.discovery_ms = slow.discovery_ms;
+        transport.wscript = vec![sim::WStep::All; usize::from(slow.pending_from)];
+        transport.wscript.extend(std::iter::repeat(sim::WStep::PendingFor(slow.pending_ms)).take(8));
+    }
     let out = sim::run_sim(
         &case.cfg,
-        &case.adapters,
-        &TransportScript::default(),
+        &adapters,
+        &transport,
         case.select_seed,
         1000,
         crate::client_fn!(|c| {
@@ -403,7 +422,12 @@ fn run_case(case: &Case) -> (sim::SimOutcome, Vec<Step>, bool, u64, u64) {
                     },
                     St::AwaitClientInfo => {
                         // accepted set: client information, keep alive, plugin message, resource pack response, cookie response
-                        if client_information_valid(id, &body) {
+                        if client_information_valid(id, &body) && case.slow.is_some() {
+                            // routing takes long and writes stay pending: only the global ordering rules are judged
+                            st = St::Unspecified;
+                            expect = Expect::Any;
+                            sh2.lock().unwrap().reached_routing = true;
+                        } else if client_information_valid(id, &body) {
                             // routing: (Keep Alive | Store Cookie)* then Transfer or Disconnect
                             let discovered = case.adapters.discovery.clone().unwrap_or_default();
                             let chosen = sim::apply_strategy(&case.adapters.strategy, &discovered).ok().flatten();
@@ -697,6 +721,25 @@ impl Check for C06 {
                 adapters: AdapterScript { status, auth, discovery: Some(targets), strategy: StrategyV::Pick(pick), ..Default::default() },
                 items,
                 select_seed,
+                slow: None,
+            })
+            .prop_flat_map(|case| {
+                // a share of login cases: the legal flow up to Client Information, then silence while a slow discovery
+                // completes during a pending write around the keep-alive deadline (tick 32 s)
+                (Just(case), prop::bool::weighted(0.08), 100u16..2000, 3u8..7, 0u32..3000).prop_map(|(mut case, slow, pending_ms, pending_from, extra)| {
+                    if slow && case.intent != 1 {
+                        let with_auth_cookie = case.intent == 3 && case.cfg.secret.is_some();
+                        let legal = 6 + usize::from(with_auth_cookie);
+                        // writes before the configuration phase (cookie requests, Encryption Request, Login Success) are
+                        // accepted at once; the Keep Alive and/or the packets after it stay pending
+                        let pending_from = 3 + u8::from(with_auth_cookie) + pending_from % 2;
+                        case.items = vec![Item::Legal; legal];
+                        case.items.push(Item::Stall(35_000 + extra));
+                        case.adapters.auth = AuthV::Echo;
+                        case.slow = Some(Slow { discovery_ms: 32_000 + u32::from(pending_ms) / 2, pending_from, pending_ms });
+                    }
+                    case
+                })
             })
             .boxed()
     }
